@@ -26,7 +26,7 @@ NOT_DECIDED = ["behaviour at an actual crash point (process kill) - only the ord
                "that the back-end libraries (PyTables, netCDF4, xdrfile) persist data on flush/sync",
                "equality of file content between k calls and one call (run-time)"]
 ASSUMPTIONS = ["PyTables EArray.append and netCDF variable assignment validate the per-frame shape themselves (atom count) before storing"]
-FLOORS = {"C19-R1": 11, "C19-R2": 9, "C19-R3": 3, "C19-R4": 4, "C19-R5": 6, "C19-R6": 6, "C19-R7": 24, "C19-R8": 50}
+FLOORS = {"C19-R1": 11, "C19-R2": 9, "C19-R3": 3, "C19-R4": 4, "C19-R5": 6, "C19-R6": 6, "C19-R7": 24, "C19-R8": 68}
 
 WRITERS = ["h5", "nc", "xtc", "trr", "dcd", "dtr", "mdcrd", "xyz", "lammpstrj", "gro", "pdb", "lh5", "rst7", "ncrst"]
 IO_ERRORS = ("IOError", "OSError", "RuntimeError", "MemoryError", "NotImplementedError", "ImportError")
@@ -157,6 +157,7 @@ def check(ctx):
     ctx.rule("C19-R7", "in the frame loop of a text writer every use of per-frame data is indexed by the loop variable; nothing reduced over the frames of one call is used inside the loop")
     _r7(ctx)
     _r8_array_stores(ctx)
+    _r8_xdr(ctx)
     ctx.rule("C19-R6", "HDF5.write passes flush() on every normal exit; flush() reaches the backend sync; the reporter flushes after write")
 
     for key in WRITERS:
@@ -822,5 +823,86 @@ def _r8_array_stores(ctx):
                     a2 = contents(me)
                     ok2 = not e2 and all(a2[k_].shape[0] == 4 for k_ in a2)
                     ctx.decide(ok2, "C19-R8", fn, rel, q, "after a refused write (%s) the file accepts further frames of its own kind" % what, "", "a regular write after the refused one %s" % ("is refused: %s" % e2[:60] if e2 else "leaves arrays of %s rows" % {k_: a2[k_].shape[0] for k_ in a2}))
+            except PUnsupported as e:
+                ctx.undecided("C19-R8", fn, rel, q, desc, "not evaluable: %s" % e)
+
+
+def _r8_xdr(ctx):
+    """XTCTrajectoryFile.write / TRRTrajectoryFile.write (Cython, desugared) evaluated on a model XDR file (sa/xdrmodel.py: write_xtc / write_trr append the
+    frame they are handed): with time, step and box given explicitly, n frames written in k calls leave the frame records and the counter of one call; a
+    later write with another atom count, or with the cell added / dropped, is refused and appends nothing.  (Default time / step: C19-R3.)"""
+    from .. import xdrmodel as X, writers as W, h5model as H
+    from ..tensym import TenSym, Ten, Raised
+    from ..pysym import Unsupported as PUnsupported
+    from .. import textio as T
+    NA = 3
+    ev = TenSym({})
+
+    def cut(t, a, b):
+        if t is None:
+            return None
+        v = ev.getitem(t, (slice(a, b),))
+        return Ten(v.shape, list(v.data))
+
+    def same_frames(f1, f2):
+        if len(f1) != len(f2):
+            return "%d / %d frames" % (len(f1), len(f2))
+        for k_, (a_, b_) in enumerate(zip(f1, f2)):
+            for fld in a_:
+                if not T.same_value(a_[fld], b_.get(fld)):
+                    return "frame %d: %s differs" % (k_, fld)
+        return None
+    for key in ("xtc", "trr"):
+        rel, cls = F.rel_cls(key)
+        fn = F.method(ctx, key, "write")
+        q = cls + ".write"
+
+        def write(xf, me, **kw):
+            try:
+                X.call(ctx, key, xf, me, "write", assume=W.assume, **{k_: v_ for k_, v_ in kw.items() if v_ is not None})
+                return None
+            except Raised as e:
+                return e.exc or str(e)
+        for has_box in (True, False):
+            for n, part in ((2, [(0, 1), (1, 2)]), (3, [(0, 1), (1, 3)]), (3, [(0, 2), (2, 3)])):
+                desc = "%d frames in calls of %s (%s cell; time and step given): the frame records of one call" % (n, [b_ - a_ for a_, b_ in part], "with" if has_box else "without")
+                try:
+                    data = dict(xyz=Ten.sym("x", (n, NA, 3)), time=Ten.sym("t", (n,)), step=Ten.sym("s", (n,)), box=Ten.sym("B", (n, 3, 3)) if has_box else None)
+                    if key == "trr":
+                        data["lambd"] = Ten.sym("lam", (n,))
+                    f1, f2 = X.XdrFile(key), X.XdrFile(key)
+                    m1, m2 = X.file_object(ctx, key, f1, "w"), X.file_object(ctx, key, f2, "w")
+                    e1 = write(f1, m1, **data)
+                    es = [write(f2, m2, **{k_: cut(v_, a_, b_) for k_, v_ in data.items()}) for a_, b_ in part]
+                    why = None
+                    if e1 or any(es):
+                        why = "a write is refused: %s" % (e1 or next(e_ for e_ in es if e_))[:80]
+                    else:
+                        why = same_frames(f1.frames, f2.frames)
+                        if why is None and len(f1.frames) != n:
+                            why = "%d frames are written for %d given" % (len(f1.frames), n)
+                        if why is None:
+                            for k_, fr in enumerate(f1.frames):
+                                if not (T.same_value(fr["x"], list(data["xyz"].data[k_ * NA * 3:(k_ + 1) * NA * 3])) and T.same_value(fr["time"], data["time"].data[k_]) and T.same_value(fr["step"], data["step"].data[k_])
+                                        and (not has_box or T.same_value(fr["box"], list(data["box"].data[k_ * 9:(k_ + 1) * 9])))):
+                                    why = "frame %d on file is not the frame handed to write()" % k_
+                                    break
+                        if why is None and (m1.frame_counter != n or m2.frame_counter != n):
+                            why = "the frame counter is %s / %s after %d frames" % (m1.frame_counter, m2.frame_counter, n)
+                    ctx.decide(why is None, "C19-R8", fn, rel, q, desc, "", "%s: incremental writing does not give the file of one-shot writing" % why)
+                except PUnsupported as e:
+                    ctx.undecided("C19-R8", fn, rel, q, desc, "not evaluable: %s" % e)
+        base = dict(xyz=Ten.sym("x", (2, NA, 3)), time=Ten.sym("t", (2,)), step=Ten.sym("s", (2,)), box=Ten.sym("B", (2, 3, 3)))
+        nobox = {k_: v_ for k_, v_ in base.items() if k_ != "box"}
+        for what, first, second in (("another atom count", base, dict(base, xyz=Ten.sym("y", (2, NA + 1, 3)))), ("the cell left out", base, nobox), ("a cell added", nobox, base)):
+            desc = "a later write with %s is refused and appends nothing" % what
+            try:
+                xf = X.XdrFile(key)
+                me = X.file_object(ctx, key, xf, "w")
+                e0 = write(xf, me, **first)
+                n0 = len(xf.frames)
+                e1 = write(xf, me, **second)
+                why = ("the first write is refused: %s" % e0[:60]) if e0 else ("it is accepted" if not e1 else ("it is refused after %d frames were appended" % (len(xf.frames) - n0) if len(xf.frames) != n0 else None))
+                ctx.decide(why is None, "C19-R8", fn, rel, q, desc, (e1 or "")[:40], "%s: the file becomes ragged" % why)
             except PUnsupported as e:
                 ctx.undecided("C19-R8", fn, rel, q, desc, "not evaluable: %s" % e)
